@@ -7,5 +7,6 @@ INVARIANTS
   P_C12_Inverse
   P_C12_DocInverse
   P_C12_Repr
+  P_C12_Machine
   Emit
 CHECK_DEADLOCK FALSE
